@@ -20,6 +20,9 @@ func zzBuildTree(depth int, budget *int) []*AVP {
 		} else {
 			out = append(out, NewAVP(code, 0, 0, datatype.Unsigned32(uint32(i))))
 		}
+		// AVP.Length is a snapshot taken when the AVP was created (a group filled afterwards, or an AVP
+		// built as a literal, carries a stale value): the search must depend on the tree alone
+		out[len(out)-1].Length = int(vU32("cachedlen") & 0xffffff)
 	}
 	return out
 }
